@@ -217,6 +217,22 @@ func c14Bursts() []c14Burst {
 			}
 			return nil
 		}},
+		{"second-registration", func(S *world.Server, st *c14State) error {
+			// another key, correctly signed by the temporary key, on a registered
+			// server: refused - and the archive must keep verifying under the one
+			// registered key
+			if !S.VerifSnapshot().GCAAvailable {
+				return nil
+			}
+			code, _, err := S.Register(keyFor("c14-second-gca").Pub, st.temp)
+			if err != nil {
+				return fmt.Errorf("burst registration request failed: %v", err)
+			}
+			if code == 200 {
+				return fmt.Errorf("a second registration was accepted")
+			}
+			return nil
+		}},
 	}
 }
 
@@ -227,7 +243,7 @@ func getArchive(S *world.Server) (int, []byte, error) {
 }
 
 func TestC14GapMatrix(t *testing.T) {
-	ev.Rule("C14(1): COMPLETE MATRIX of (gap before each of the 6 files added to the archive) x (write burst: new device + first report, GCA registration + first device + report, rotation, conflicting authorization, burst of reports) on generated states (unregistered / registered with 0-3 devices, reports, 0-1 archived weeks): the archive is requested and the burst runs from the gap's callback; oracle: every public file in the archive is a record-aligned byte prefix of the final file, every archived report verifies under an authorization in the same archive, every archived authorization under the archived GCA key, every weekly record under the archived server public key, no server.keys entry, the private key bytes occur nowhere, server.pubkey is exactly the public key; non-trivial = archive during which the burst landed; distinct by (state, gap, burst)")
+	ev.Rule("C14(1): COMPLETE MATRIX of (gap before each of the 6 files added to the archive) x (write burst: new device + first report, GCA registration + first device + report, rotation, conflicting authorization, burst of reports, a refused second registration) on generated states (unregistered / registered with 0-3 devices, reports, 0-1 archived weeks): the archive is requested and the burst runs from the gap's callback; oracle: every public file in the archive is a record-aligned byte prefix of the final file, every archived report verifies under an authorization in the same archive, every archived authorization under the archived GCA key, every weekly record under the archived server public key, no server.keys entry, the private key bytes occur nowhere, server.pubkey is exactly the public key; non-trivial = archive during which the burst landed; distinct by (state, gap, burst)")
 	server.VerifSetStepping(true)
 	cells := 0
 	rapid.Check(t, func(t *rapid.T) {
